@@ -83,6 +83,8 @@ def init_worker():
     numerals.install(sc, cp, tu, with_eval=True, with_chr=True)
     import shims
     shims.install_isinstance(sc, cp, tu)
+    import skoolkit.snaskool as ss
+    cp.warn = ss.warn = lambda *a: None         # overlap warnings for the deliberately truncated sub-blocks of the corpus
 
 
 def new_res():
